@@ -7,6 +7,14 @@ hooks = subprocess.run(["git", "-C", "/repo", "log", "--format=%h %s"], capture_
 hook_commits = [l.split()[0] for l in hooks if "verif hooks" in l]
 
 CLAIMS = {
+ "C12": dict(
+   text="Coq theorem over the call graph and blocking-site table regenerated from the source on every run (resolution by method name and arity, an over-approximation): from get, get_key_value, contains_key, iteration (iter/keys/values and every next), len, is_empty, equality, the set relations and the facade versions, no Mutex::lock, park, yield_now or spin_loop site is reachable (75 functions in the cone; the graph demonstrably sees the writers' locks). Semantic side on the implementation: for 14 writer scenarios the writer is suspended after each of its shared-memory operations in turn (inside bin critical sections, inside tree restructuring, mid-migration of a bin, mid-resize) and every read operation is run alone under the scheduler: it must complete within a step bound without acquiring a lock; the before-lock hook firing inside any read of any scheduled run is also a violation.",
+   note="the boundedness of a solo read from every reachable state is established by exhaustive suspension points of the listed scenarios, not yet by a theorem over the protocol model (planned with BinProto S1: lists stay acyclic at every intermediate state)",
+   tech="Coq proof over translator-regenerated call graph (vm_compute reachability) + exhaustive writer-suspension runs under the deterministic scheduler", ref="DESIGN.md 5/C12"),
+ "C15": dict(
+   text="Coq theorems: (1) over the table of all atomic-operation sites regenerated from the source (function, field, kind, orderings): every site respects its discipline - publishing stores/swaps/CASes are at least Release, integer-cell loads at least Acquire, pointer cells are read through Guard::protect (SeqCst), weaker orderings occur only at exempted (function, field) pairs classified Private / UnderTreeWriteLock / UnderBinLock / Exclusive / Diagnostic; the tree-lock and bin edges carry release/acquire; (2) in a release/acquire fragment (po, rf, sw from release-write/acquire-read or mutex hand-over, hb = transitive closure; premises are explicit hypotheses of the theorem, not axioms) initialisation happens-before the final access along every publication path with any number of intermediate copies. Translator validation on every run: each atomic operation executed by a recorded workload must match a row of the static table (kind and orderings).",
+   note="partial by nature: x86 cannot exhibit a missing edge, so a violation is reported as the failing obligation (no-failing-input-found); the assignment of exemptions to (function, field) pairs is hand-made and justified by the lock discipline (BinProto/TreeLock) and the run-time behaviour, not proved; no SC-fence reasoning; seize's protect() loading SeqCst is read from seize 0.3.3 and trusted; candidate K1 is outside the fragment",
+   tech="Coq proof over translator-regenerated ordering table + axiomatic release/acquire lemma; dynamic validation of the table", ref="DESIGN.md 5/C15"),
  "C01": dict(
    text="(1) The per-key sequential specification, the definition of linearizability (real-time-respecting legal permutation) and a Wing-Gong checker lin_b are Coq definitions; lin_b is proved sound (Qed). Every history the implementation produces in the scheduled runs is exported and certified by evaluating lin_b inside Coq (vm_compute), together with the final read of every key, so each explored execution is kernel-certified linearizable - independently of the harness's own Rust checker, whose verdicts must agree. (2) The unbounded statement - every schedule of every program is linearizable - is a theorem over the executable list-bin protocol model Model/BinProto.v (one step per shared-memory operation, any hash function, table size, thread count); its proof (Proofs/BinProtoProofs.v) is in progress, see evidence for the theorems currently pinned. Implementation side: programs over all eight per-key operations, both facades, map of 1/2/16/64 bins, constant / same-bin / identity hashers, racing multi-helper resizes and tree-bin restructuring, preemption at every shared operation including inside critical sections.",
    note="the model theorem covers stage S1 (list bins, no resize); resizes and tree bins are covered by the certified histories of the implementation only; linearizability is checked per key (locality); sequentially consistent interleavings only (see C15)",
